@@ -111,8 +111,9 @@ def objects_menu(tier):
     add('priv/masks', lambda: pobjects.PrivateKey(ALG.RSA, 1024, priv, E.KeyFormatType.PKCS_1, masks=[CUM.SIGN]))
     for parts, ident, thr in ((3, 1, 2), (1, 1, 1), (255, 255, 255), (2, 0, 1)):
         for meth in E.SplitKeyMethod:
-            for prime in ((None,) if meth != E.SplitKeyMethod.POLYNOMIAL_SHARING_PRIME_FIELD
-                          else (2 ** 63 - 1, 104729, 2 ** 63, 2 ** 64 + 13)):
+            # a prime field size is legal (if unusual) with every method; absent with every method too
+            for prime in ((None, 104729, 2 ** 63 - 1) if meth != E.SplitKeyMethod.POLYNOMIAL_SHARING_PRIME_FIELD
+                          else (None, 2 ** 63 - 1, 104729, 2 ** 63, 2 ** 64 + 13)):
                 add('split/%d-%d-%d/%s/%s' % (parts, ident, thr, meth.name, prime),
                     (lambda parts=parts, ident=ident, thr=thr, meth=meth, prime=prime: pobjects.SplitKey(
                         cryptographic_algorithm=ALG.AES, cryptographic_length=128, key_value=b'\x44' * 16,
